@@ -79,6 +79,9 @@ var addCmd = &cobra.Command{
 			return errors.New("nothing specified, nothing added")
 		}
 		for _, arg := range args {
+			if _, err := os.Stat(arg); err != nil && !os.IsNotExist(err) {
+				return fmt.Errorf(`path "%s" did not match any files`, arg)
+			}
 			if _, err := os.Stat(arg); os.IsNotExist(err) {
 				// If the file does not exist but is registered in the index, delete it from the index
 				// but not delete here, just check it
